@@ -43,13 +43,23 @@ def gen_case(rng, quick):
         case["trail"] = rng.choice([" ", "  ", "\n"])
     if rng.random() < 0.15:
         case["sep"] = rng.choice(["  ", "\n", " \t "])
+    # the element's text spread over several adjacent text nodes (API-made), cut anywhere, also at whitespace
+    if rng.random() < 0.3:
+        text = source_text(case)
+        if len(text) >= 2:
+            cuts = sorted(set(rng.randrange(1, len(text)) for _ in range(rng.choice([1, 1, 2, 3]))))
+            case["pieces"] = [text[a:b] for a, b in zip([0] + cuts, cuts + [len(text)])]
     return case
+
+
+def source_text(case):
+    return case.get("lead", "") + case.get("sep", " ").join(case["words"]) + case.get("trail", "")
 
 
 def doc_for(case):
     """-> (xml, the escaped single-spaced words = what must be distributed over the text lines)"""
-    text = case.get("lead", "") + case.get("sep", " ").join(case["words"]) + case.get("trail", "")
-    xml = "<p>%s</p>" % esc_text(text)
+    text = source_text(case)
+    xml = "<p>%s</p>" % ("" if case.get("pieces") else esc_text(text))
     for i in range(case["depth"]):
         xml = "<d%d>%s</d%d>" % (i, xml, i)
     return xml, esc_text(" ".join(case["words"]))
@@ -59,6 +69,11 @@ def run_impl(case):
     xml, escaped = doc_for(case)
     with no_gc():
         doc = Document(xml)
+        if case.get("pieces"):
+            p = doc.root
+            while p.local_name != "p":
+                p = p[0]
+            p.append_children(*case["pieces"])
         out = doc.root.serialize(format_options=FormatOptions(width=case["width"], indentation=case["indentation"],
                                                               align_attributes=False))
     return out, escaped
@@ -166,7 +181,7 @@ def run(ctx, args):
         with open(args.replay) as f:
             rep = json.load(f)
         if rep.get("case"):
-            check_cases(ctx, [{k: rep["case"][k] for k in ("words", "width", "indentation", "depth", "lead", "trail", "sep")
+            check_cases(ctx, [{k: rep["case"][k] for k in ("words", "width", "indentation", "depth", "lead", "trail", "sep", "pieces")
                                if k in rep["case"]}])
         return ctx.finish("replay of " + args.replay, replay_open=replay_open)
     quick = ctx.tier == "quick"
@@ -185,7 +200,7 @@ def run(ctx, args):
         rule="text-only element <p> at depth 0-3 holding words joined by single spaces; word lengths biased to width-2..width+2, "
              "unbreakable words, prefixes ending exactly at the width; characters incl. & < (escaped) and non-ASCII; widths 1-12 "
              "(thorough: up to 40), five indentation strings; source text optionally with leading/trailing whitespace and longer "
-             "whitespace runs between the words; plus all word-length pairs/triples for widths 1-5. Non-trivial = more "
+             "whitespace runs between the words, and optionally spread over several adjacent (API-made) text nodes; plus all word-length pairs/triples for widths 1-5. Non-trivial = more "
              "than one text line; distinct by (words, width, indentation, depth).",
         replay_open=replay_open)
 
